@@ -89,7 +89,10 @@ def compare_step(model, real):
     if real.get("res") == "panic":
         return "host panic: %s @ %s" % (real.get("panic_msg"), real.get("panic_loc"))
     mo = normalise_ms([norm(t) for t in model["out"]])
-    ro = normalise_ms([norm(t) for t in real.get("out", [])])
+    # the context of an ImportError for a module that does not compile quotes the compiler's
+    # messages after a fixed head line; the model only predicts the head
+    ro = normalise_ms([norm(t) if not t.startswith("Error compiling module:\n    [module") else "Error compiling module:"
+                       for t in real.get("out", [])])
     if mo != ro:
         for i, (a, b) in enumerate(zip(mo + ["<end>"], ro + ["<end>"])):
             if a != b:
